@@ -613,6 +613,34 @@ MUTANTS = [
         (PT_H, "                start.run_body( range_pool.back() );\n                range_pool.pop_back();", "                if (range_pool.size() < 7) start.run_body( range_pool.back() );\n                range_pool.pop_back();")]),
     dict(name='c05-seed3-count-rounded-up-by-adding-step', prop='C05', clause='D6', edits=[(PF_H,
         "        Index end = (last - first - Index(1)) / step + Index(1);", "        Index end = Index((last - first) + (step - Index(1))) / step;")]),
+    dict(name='c02-seed4-mandatory-worker-bound-by-level-share', prop='C02', clause='D7', edits=[('src/tbb/market.cpp',
+        "allotted = client.min_workers() > 0 && assigned < max_workers ? 1 : 0;", "allotted = client.min_workers() > 0 && assigned < assigned_per_priority ? 1 : 0;")]),
+    dict(name='c02-mandatory-worker-only-while-level-has-demand', prop='C02', clause='D7', edits=[('src/tbb/market.cpp',
+        "allotted = client.min_workers() > 0 && assigned < max_workers ? 1 : 0;",
+        "allotted = client.min_workers() > 0 && assigned < max_workers && my_priority_level_demand[list_idx] > carry ? 1 : 0;")]),
+    dict(name='c08-seed4-rtm-upgrade-raises-flag-before-owning', prop='C08', clause='D1', edits=[('src/tbb/rtm_rw_mutex.cpp',
+        """            bool no_release = s.m_mutex->upgrade();
+            __TBB_ASSERT(!s.m_mutex->write_flag.load(std::memory_order_relaxed), "After upgrade, write_flag already true");
+            s.m_mutex->write_flag.store(true, std::memory_order_relaxed);
+            return no_release;""",
+        """            s.m_mutex->write_flag.store(true, std::memory_order_relaxed);
+            return s.m_mutex->upgrade();""")]),
+    dict(name='c08-rtm-release-lowers-flag-after-unlock', prop='C08', clause='D1', edits=[('src/tbb/rtm_rw_mutex.cpp',
+        """            s.m_mutex->write_flag.store(false, std::memory_order_relaxed);
+            s.m_mutex->unlock();""",
+        """            s.m_mutex->unlock();
+            s.m_mutex->write_flag.store(false, std::memory_order_relaxed);""")]),
+    dict(name='c08-rtm-downgrade-keeps-flag-until-after', prop='C08', clause='D1', edits=[('src/tbb/rtm_rw_mutex.cpp',
+        """            s.m_mutex->write_flag.store(false, std::memory_order_relaxed);
+            s.m_mutex->downgrade();""",
+        """            s.m_mutex->downgrade();
+            s.m_mutex->write_flag.store(false, std::memory_order_relaxed);""")]),
+    dict(name='c08-rtm-try-writer-raises-flag-before-try-lock', prop='C08', clause='D1', edits=[('src/tbb/rtm_rw_mutex.cpp',
+        """        if (m.try_lock()) {
+            s.m_mutex = &m;""",
+        """        m.write_flag.store(true, std::memory_order_relaxed);
+        if (m.try_lock()) {
+            s.m_mutex = &m;""")]),
     dict(name='c05-seed4-pop-back-unsigned-char-underflow', prop='C05', clause='D7', edits=[(PT_H,
         "        my_head = (my_head + MaxCapacity - 1) % MaxCapacity;", "        my_head = (my_head - 1) % MaxCapacity;")]),
     dict(name='c05-pop-front-steps-by-two', prop='C05', clause='D7', edits=[(PT_H,
@@ -1335,6 +1363,20 @@ BENIGN = [
     }""")]),
     dict(name='c05-b-count-by-quotient-and-remainder', prop='C05', edits=[(PF_H,
         "        Index end = (last - first - Index(1)) / step + Index(1);", "        Index end = Index((last - first) / step + Index((last - first) % step != 0));")]),
+    dict(name='c02-b-mandatory-budget-in-a-local', prop='C02', edits=[('src/tbb/market.cpp',
+        "allotted = client.min_workers() > 0 && assigned < max_workers ? 1 : 0;",
+        "int budget = max_workers - assigned;\n                if (client.min_workers() > 0 && budget > 0) { allotted = 1; }")]),
+    dict(name='c08-b-rtm-upgrade-state-set-after', prop='C08', edits=[('src/tbb/rtm_rw_mutex.cpp',
+        """            s.m_transaction_state = d1::rtm_rw_mutex::rtm_type::rtm_real_writer;
+            bool no_release = s.m_mutex->upgrade();""",
+        """            bool no_release = s.m_mutex->upgrade();
+            s.m_transaction_state = d1::rtm_rw_mutex::rtm_type::rtm_real_writer;""")]),
+    dict(name='c08-b-rtm-try-writer-result-in-a-local', prop='C08', edits=[('src/tbb/rtm_rw_mutex.cpp',
+        """        if (m.try_lock()) {
+            s.m_mutex = &m;""",
+        """        const bool locked = m.try_lock();
+        if (locked) {
+            s.m_mutex = &m;""")]),
     dict(name='c05-b-ring-step-by-conditional', prop='C05', edits=[(PT_H,
         "        my_tail = (my_tail + 1) % MaxCapacity;", "        my_tail = depth_t(my_tail + 1 == MaxCapacity ? 0 : my_tail + 1);")]),
     dict(name='c06-b-ring-back-step-by-conditional', prop='C06', edits=[(PT_H,
